@@ -66,7 +66,7 @@ func (pp *primePower) fourthRoot(y *big.Int) (*big.Int, bool) {
 	// split y = a*b, a in the odd-order part (order | m), b in the 2-Sylow part (order | 2^s)
 	twoS := new(big.Int).Lsh(bi1, uint(pp.s))
 	inv := new(big.Int).ModInverse(twoS, pp.m) // 2^-s mod m
-	ea := new(big.Int).Mul(twoS, inv)           // ≡ 1 mod m, ≡ 0 mod 2^s
+	ea := new(big.Int).Mul(twoS, inv)          // ≡ 1 mod m, ≡ 0 mod 2^s
 	a := new(big.Int).Exp(y, ea, pp.pe)
 	b := new(big.Int).Mul(y, new(big.Int).ModInverse(a, pp.pe))
 	b.Mod(b, pp.pe)
